@@ -1,16 +1,20 @@
 (* C15 - TLS wiring of tonic's channel and server (the WIRING DECISION only).
 
    Transcribed from
+     tonic/src/transport/service/tls.rs            ALPN_H2, convert_certificate_to_pki_types,
+                                                   convert_identity_to_pki_types, TlsError
      tonic/src/transport/channel/tls.rs            ClientTlsConfig, into_tls_connector, with_enabled_roots
      tonic/src/transport/channel/service/tls.rs    TlsConnector::new, TlsConnector::connect
      tonic/src/transport/channel/service/connector.rs   Connector::call
-     tonic/src/transport/channel/endpoint.rs       Endpoint::new / tls_config / connector
+     tonic/src/transport/channel/endpoint.rs       Endpoint::new / origin / tls_config / connector
+     tonic/src/transport/channel/service/connection.rs  which URI goes where (connector / AddOrigin)
      tonic/src/transport/server/tls.rs             ServerTlsConfig, tls_acceptor
      tonic/src/transport/server/service/tls.rs     TlsAcceptor::new
+     tonic/src/transport/server/mod.rs             Server::tls_config / layer / setters / serve_internal
+     tonic/src/transport/server/io_stream.rs       ServerIoStream::poll_next (what the listener yields)
      tonic/src/transport/server/conn.rs            Connected for TlsStream (peer_certificates)
-     tonic/src/transport/server/service/io.rs      ConnectInfo::call (request extensions)
+     tonic/src/transport/server/service/io.rs      ServerIo::connect_info, ConnectInfo::call (request extensions)
      tonic/src/request.rs                          Request::peer_certs
-     tonic/src/transport/service/tls.rs            ALPN_H2
 
    rustls is NOT modelled: the TLS handshake is two oracle functions ([rustls_connect],
    [rustls_accept]) that are Section variables; everything cryptographic (chain building,
@@ -49,9 +53,60 @@ Inductive conn_err :=
 | HttpsUriWithoutTlsSupport            (* connector.rs *)
 | H2NotNegotiated                      (* service/tls.rs, TlsError::H2NotNegotiated *)
 | TlsHandshake (e : tls_err).          (* the [?] after RustlsConnector::connect *)
-Inductive cfg_err := EInvalidUri | EInvalidDnsName | ENativeCertsNotFound | EInvalidTlsConfigForUds.
+Inductive cfg_err :=
+| EInvalidUri | EInvalidDnsName | ENativeCertsNotFound | EInvalidTlsConfigForUds
+| ECertificateParse        (* service/tls.rs TlsError::CertificateParseError *)
+| EPrivateKeyParse         (* service/tls.rs TlsError::PrivateKeyParseError *)
+| ENoRootAnchors           (* WebPkiClientVerifier::builder(<empty store>).build() *)
+| ERustlsKey.              (* with_client_auth_cert / with_single_cert: no certificate, an
+                              undecodable leaf, a key that provably is not the leaf's *)
 
 Inductive neg := NegAbort | NegNone | NegProto (p : proto).
+
+(* ------------------------------------------------------------------ PEM inputs *)
+(* tonic's [Certificate] is a PEM blob.  What rustls-pki-types' [pem_reader_iter] makes of it:
+   text outside sections and sections of another kind (keys) are skipped, so a blob is the list
+   of its CERTIFICATE sections; a section is a certificate, or well-formed base64 that is not a
+   certificate (kept by the PEM reader, dropped later by [add_parsable_certificates]), or
+   undecodable / truncated (the reader fails) *)
+Inductive pem_sec (A : Type) := SecCert (x : A) | SecJunk | SecBroken.
+Arguments SecCert {A} x.
+Arguments SecJunk {A}.
+Arguments SecBroken {A}.
+Inductive der (A : Type) := DerCert (x : A) | DerJunk.
+Arguments DerCert {A} x.
+Arguments DerJunk {A}.
+
+Section Pem.
+  Context {A : Type}.
+  (* service/tls.rs convert_certificate_to_pki_types:
+       pem_reader_iter(..).collect::<Result<Vec<_>, _>>().map_err(|_| CertificateParseError) *)
+  Fixpoint convert_certificate (p : list (pem_sec A)) : option (list (der A)) :=
+    match p with
+    | [] => Some []
+    | SecBroken :: _ => None
+    | SecCert x :: r =>
+        match convert_certificate r with Some l => Some (DerCert x :: l) | None => None end
+    | SecJunk :: r =>
+        match convert_certificate r with Some l => Some (DerJunk :: l) | None => None end
+    end.
+  (* RootCertStore::add_parsable_certificates: what does not parse is skipped *)
+  Definition add_parsable (l : list (der A)) : list A :=
+    flat_map (fun d => match d with DerCert x => [x] | DerJunk => [] end) l.
+
+  (* specification vocabulary: the certificates of a blob, and "every section decodes" *)
+  Definition pem_certs (p : list (pem_sec A)) : list A :=
+    flat_map (fun s => match s with SecCert x => [x] | _ => [] end) p.
+  Definition pem_decodes (p : list (pem_sec A)) : bool :=
+    forallb (fun s => match s with SecBroken => false | _ => true end) p.
+End Pem.
+
+(* tonic's [Identity]: a certificate blob and a key blob.  [id_key = Some c]: the blob holds the
+   private key that belongs to certificate [c]; [None]: it holds no private key section, or one
+   that does not decode (PrivateKeyDer::from_pem_reader fails either way) *)
+Record Identity (cert : Type) := { id_cert : list (pem_sec cert); id_key : option cert }.
+Arguments id_cert {cert} i.
+Arguments id_key {cert} i.
 
 Section Wiring.
   (* certificates, CA certificates / trust anchors, DNS names: opaque *)
@@ -60,24 +115,54 @@ Section Wiring.
   (* what rustls decides, as oracles *)
   Variable chain_ok : list ca -> cert -> bool.        (* cert chains to one of the roots *)
   Variable name_ok : dname -> cert -> bool.           (* cert is valid for the name *)
-  Variable client_cert_ok : ca -> cert -> bool.       (* client cert issued by the client CA *)
+  Variable client_cert_ok : ca -> cert -> bool.       (* client cert issued by that CA *)
   Variable valid_name : dname -> bool.                (* ServerName::try_from succeeds *)
+  Variable key_matches : cert -> cert -> bool.        (* the private key of the first is the key the
+                                                         second certifies (CertifiedKey::keys_match) *)
 
   (* the build and the platform *)
   (* cargo features of the tonic build.  [f_tls] is [_tls-any] (tls-ring / tls-aws-lc): without
      it the [is_https] branch of Connector::call, Endpoint::tls_config and Server::tls_config
      do not exist *)
   Record features := { f_tls : bool; f_native_roots : bool; f_webpki_roots : bool }.
-  Variable ca_usable : ca -> bool.                    (* the PEM yields at least one parsable certificate *)
   Variable native_certs : list ca.                    (* rustls_native_certs::load_native_certs *)
   Variable webpki_roots : list ca.                    (* webpki_roots::TLS_SERVER_ROOTS *)
+
+  (* ---------------------------------------------------------------- service/tls.rs *)
+  (* convert_identity_to_pki_types (certificate blob, then key blob) followed by what rustls'
+     with_client_auth_cert / with_single_cert do with the pair (CertifiedKey::from_der: the chain
+     must not be empty, its first certificate must decode, the key must not provably belong to
+     another certificate).  The result is the leaf that will be presented. *)
+  Definition certified_key (id : Identity cert) : cfg_err + cert :=
+    match convert_certificate (id_cert id) with
+    | None => inl ECertificateParse
+    | Some chain =>
+        match id_key id with
+        | None => inl EPrivateKeyParse
+        | Some k =>
+            match chain with
+            | [] => inl ERustlsKey                          (* NoCertificatesPresented *)
+            | DerJunk :: _ => inl ERustlsKey                (* InvalidCertificate(BadEncoding) *)
+            | DerCert leaf :: _ =>
+                if key_matches k leaf then inr leaf
+                else inl ERustlsKey                         (* InconsistentKeys(KeyMismatch) *)
+            end
+        end
+    end.
+
+  (* specification vocabulary: the certificate a configured identity presents *)
+  Definition identity_leaf (o : option (Identity cert)) : option cert :=
+    match o with
+    | Some id => match certified_key id with inr leaf => Some leaf | inl _ => None end
+    | None => None
+    end.
 
   (* ---------------------------------------------------------------- channel/tls.rs *)
   Record ClientTlsConfig := {
     c_domain : option dname;
-    c_certs : list ca;
+    c_certs : list (list (pem_sec ca));           (* Vec<Certificate>: one blob per call *)
     c_trust_anchors : list ca;
-    c_identity : option cert;
+    c_identity : option (Identity cert);
     c_assume_http2 : bool;
     c_with_native_roots : bool;
     c_with_webpki_roots : bool }.
@@ -90,7 +175,7 @@ Section Wiring.
     {| c_domain := Some d; c_certs := c_certs c; c_trust_anchors := c_trust_anchors c;
        c_identity := c_identity c; c_assume_http2 := c_assume_http2 c;
        c_with_native_roots := c_with_native_roots c; c_with_webpki_roots := c_with_webpki_roots c |}.
-  Definition ca_certificate (c : ClientTlsConfig) (x : ca) :=
+  Definition ca_certificate (c : ClientTlsConfig) (x : list (pem_sec ca)) :=
     {| c_domain := c_domain c; c_certs := c_certs c ++ [x]; c_trust_anchors := c_trust_anchors c;
        c_identity := c_identity c; c_assume_http2 := c_assume_http2 c;
        c_with_native_roots := c_with_native_roots c; c_with_webpki_roots := c_with_webpki_roots c |}.
@@ -98,7 +183,7 @@ Section Wiring.
     {| c_domain := c_domain c; c_certs := c_certs c; c_trust_anchors := c_trust_anchors c ++ [x];
        c_identity := c_identity c; c_assume_http2 := c_assume_http2 c;
        c_with_native_roots := c_with_native_roots c; c_with_webpki_roots := c_with_webpki_roots c |}.
-  Definition identity (c : ClientTlsConfig) (i : cert) :=
+  Definition identity (c : ClientTlsConfig) (i : Identity cert) :=
     {| c_domain := c_domain c; c_certs := c_certs c; c_trust_anchors := c_trust_anchors c;
        c_identity := Some i; c_assume_http2 := c_assume_http2 c;
        c_with_native_roots := c_with_native_roots c; c_with_webpki_roots := c_with_webpki_roots c |}.
@@ -127,16 +212,27 @@ Section Wiring.
   (* ---------------------------------------------------------------- channel/service/tls.rs *)
   Record TlsConnector := {
     tc_roots : list ca;               (* config: the root store *)
-    tc_identity : option cert;        (* config: client auth cert *)
+    tc_identity : option cert;        (* config: client auth cert (the leaf) *)
     tc_alpn : list proto;             (* config.alpn_protocols *)
     tc_domain : dname;
     tc_assume_http2 : bool }.
 
-  (* TlsConnector::new; PEM parsing of the inputs is not modelled (certificates are opaque and
-     well formed; an unparsable CA only ever removes roots) *)
-  Definition tls_connector_new (f : features) (ca_certs trust_anchors : list ca)
-      (ident : option cert) (domain : dname) (assume : bool) (with_native with_webpki : bool)
-      : cfg_err + TlsConnector :=
+  (* [for cert in ca_certs { roots.add_parsable_certificates(convert_certificate_to_pki_types(&cert)?) }] *)
+  Fixpoint add_ca_certs (roots : list ca) (ca_certs : list (list (pem_sec ca))) : cfg_err + list ca :=
+    match ca_certs with
+    | [] => inr roots
+    | c :: r =>
+        match convert_certificate c with
+        | None => inl ECertificateParse
+        | Some ders => add_ca_certs (roots ++ add_parsable ders) r
+        end
+    end.
+
+  (* TlsConnector::new, in the order of the code: trust anchors, platform roots, webpki roots,
+     the CA blobs, the identity, the server name *)
+  Definition tls_connector_new (f : features) (ca_certs : list (list (pem_sec ca)))
+      (trust_anchors : list ca) (ident : option (Identity cert)) (domain : dname) (assume : bool)
+      (with_native with_webpki : bool) : cfg_err + TlsConnector :=
     let roots := trust_anchors in
     match (if f_native_roots f && with_native
            then match native_certs with
@@ -147,11 +243,24 @@ Section Wiring.
     | inl e => inl e
     | inr roots =>
         let roots := if f_webpki_roots f && with_webpki then roots ++ webpki_roots else roots in
-        let roots := roots ++ ca_certs in
-        if valid_name domain
-        then inr {| tc_roots := roots; tc_identity := ident; tc_alpn := [ALPN_H2];
-                    tc_domain := domain; tc_assume_http2 := assume |}
-        else inl EInvalidDnsName
+        match add_ca_certs roots ca_certs with
+        | inl e => inl e
+        | inr roots =>
+            match (match ident with
+                   | Some id => match certified_key id with
+                                | inl e => inl e
+                                | inr leaf => inr (Some leaf)
+                                end
+                   | None => inr None
+                   end) with
+            | inl e => inl e
+            | inr client_cert =>
+                if valid_name domain
+                then inr {| tc_roots := roots; tc_identity := client_cert; tc_alpn := [ALPN_H2];
+                            tc_domain := domain; tc_assume_http2 := assume |}
+                else inl EInvalidDnsName
+            end
+        end
     end.
 
   (* ClientTlsConfig::into_tls_connector(self, uri) *)
@@ -165,72 +274,101 @@ Section Wiring.
     end.
 
   (* ---------------------------------------------------------------- channel/endpoint.rs *)
-  (* [e_scheme]/[e_host]: the endpoint URI; [e_origin]: the optional origin override
-     (scheme, host), used by AddOrigin for the :scheme/:authority of requests only *)
+  (* [e_uds]: EndpointType::Uds (then [uri()] is the fallback http://tonic);
+     [e_scheme]/[e_host]: the endpoint URI; [e_origin]: the optional origin override
+     (scheme, host) *)
   Record Endpoint := {
+    e_uds : bool;
     e_scheme : scheme; e_host : option dname;
     e_origin : option (scheme * option dname);
     e_tls : option TlsConnector }.
 
   (* Endpoint::from_static / from_shared / new_uri *)
   Definition endpoint_from_uri (s : scheme) (h : option dname) : Endpoint :=
-    {| e_scheme := s; e_host := h; e_origin := None; e_tls := None |}.
+    {| e_uds := false; e_scheme := s; e_host := h; e_origin := None; e_tls := None |}.
+  (* from_shared("unix:..."): new_uds *)
+  Definition endpoint_from_uds : Endpoint :=
+    {| e_uds := true; e_scheme := Http; e_host := None; e_origin := None; e_tls := None |}.
 
   (* Endpoint::origin: Endpoint { origin: Some(origin), ..self } *)
   Definition endpoint_origin (e : Endpoint) (o : scheme * option dname) : Endpoint :=
-    {| e_scheme := e_scheme e; e_host := e_host e; e_origin := Some o; e_tls := e_tls e |}.
+    {| e_uds := e_uds e; e_scheme := e_scheme e; e_host := e_host e; e_origin := Some o;
+       e_tls := e_tls e |}.
   Definition apply_origin (o : option (scheme * option dname)) (e : Endpoint) : Endpoint :=
     match o with Some x => endpoint_origin e x | None => e end.
 
-  (* Endpoint::tls_config (Uri endpoints): into_tls_connector(uri) with the endpoint URI as it
-     is at the time of the call; the origin is not consulted *)
+  (* Endpoint::tls_config: for a Uri endpoint into_tls_connector(uri) with the endpoint URI as it
+     is at the time of the call (the origin is not consulted), replacing any earlier connector;
+     for a Uds endpoint an error *)
   Definition endpoint_tls_config (f : features) (e : Endpoint) (c : ClientTlsConfig)
       : cfg_err + Endpoint :=
-    match into_tls_connector f c (e_host e) with
-    | inl err => inl err
-    | inr t => inr {| e_scheme := e_scheme e; e_host := e_host e; e_origin := e_origin e;
-                      e_tls := Some t |}
-    end.
+    if e_uds e then inl EInvalidTlsConfigForUds
+    else match into_tls_connector f c (e_host e) with
+         | inl err => inl err
+         | inr t => inr {| e_uds := e_uds e; e_scheme := e_scheme e; e_host := e_host e;
+                           e_origin := e_origin e; e_tls := Some t |}
+         end.
 
   (* Endpoint::new (used by generated clients' [connect]) *)
-  Definition endpoint_new (f : features) (s : scheme) (h : option dname) : cfg_err + Endpoint :=
-    let me := endpoint_from_uri s h in
-    if is_https s
+  Definition endpoint_new_of (f : features) (me : Endpoint) : cfg_err + Endpoint :=
+    if negb (e_uds me) && is_https (e_scheme me)
     then endpoint_tls_config f me (with_enabled_roots f client_tls_config_new)
     else inr me.
+  Definition endpoint_new (f : features) (s : scheme) (h : option dname) : cfg_err + Endpoint :=
+    endpoint_new_of f (endpoint_from_uri s h).
+
+  (* connection.rs: the connector is called with [endpoint.uri()] (Reconnect::new), requests get
+     the scheme and authority of [origin.unwrap_or(uri)] (AddOrigin::new) *)
+  Definition connect_uri (e : Endpoint) : scheme * option dname := (e_scheme e, e_host e).
+  Definition request_target (e : Endpoint) : scheme * option dname :=
+    match e_origin e with Some o => o | None => (e_scheme e, e_host e) end.
 
   (* ---------------------------------------------------------------- server/tls.rs, server/service/tls.rs *)
   Record ServerTlsConfig := {
-    s_identity : option cert;
-    s_client_ca_root : option ca;
+    s_identity : option (Identity cert);
+    s_client_ca_root : option (list (pem_sec ca));     (* ONE blob, any number of certificates *)
     s_client_auth_optional : bool }.
 
   Inductive client_verifier :=
   | NoClientAuth                                     (* builder.with_no_client_auth() *)
-  | WebPki (root : ca) (allow_unauthenticated : bool).
+  | WebPki (roots : list ca) (allow_unauthenticated : bool).
 
   Record TlsAcceptor := { a_cert : cert; a_verifier : client_verifier; a_alpn : list proto }.
 
-  Inductive acc_result := AccPanic | AccErr | AccOk (a : TlsAcceptor).
+  Inductive acc_result := AccPanic | AccErr (e : cfg_err) | AccOk (a : TlsAcceptor).
 
-  (* ServerTlsConfig::tls_acceptor = TlsAcceptor::new(self.identity.as_ref().unwrap(), ..).
+  (* TlsAcceptor::new, first half: the client verifier.  Every certificate of the blob becomes a
+     root; a blob without any leaves the store empty and the verifier builder fails *)
+  Definition client_verifier_of (client_ca_root : option (list (pem_sec ca))) (optional : bool)
+      : cfg_err + client_verifier :=
+    match client_ca_root with
+    | None => inr NoClientAuth
+    | Some blob =>
+        match convert_certificate blob with
+        | None => inl ECertificateParse
+        | Some ders =>
+            match add_parsable ders with
+            | [] => inl ENoRootAnchors
+            | roots => inr (if optional then WebPki roots true else WebPki roots false)
+            end
+        end
+    end.
+
+  (* ServerTlsConfig::tls_acceptor = TlsAcceptor::new(self.identity.as_ref().unwrap(), ..): the
+     unwrap is evaluated first; then the verifier, then the identity.
      [config.session_storage] is not touched: every call builds a new rustls ServerConfig, which
-     comes with a session cache of its own (see [spawn_servers] below).
-     A client CA that yields no parsable certificate leaves the root store empty and
-     WebPkiClientVerifier::builder(..).build()? fails (or the PEM reader fails before that) *)
+     comes with a session cache of its own (see [spawn_servers] below). *)
   Definition tls_acceptor (s : ServerTlsConfig) : acc_result :=
     match s_identity s with
     | None => AccPanic                                (* Option::unwrap on None *)
     | Some id =>
-        match s_client_ca_root s with
-        | None => AccOk {| a_cert := id; a_verifier := NoClientAuth; a_alpn := [ALPN_H2] |}
-        | Some root =>
-            if ca_usable root
-            then AccOk {| a_cert := id;
-                          a_verifier := if s_client_auth_optional s then WebPki root true
-                                        else WebPki root false;
-                          a_alpn := [ALPN_H2] |}
-            else AccErr
+        match client_verifier_of (s_client_ca_root s) (s_client_auth_optional s) with
+        | inl e => AccErr e
+        | inr v =>
+            match certified_key id with
+            | inl e => AccErr e
+            | inr leaf => AccOk {| a_cert := leaf; a_verifier := v; a_alpn := [ALPN_H2] |}
+            end
         end
     end.
 
@@ -246,7 +384,7 @@ Section Wiring.
   Definition server_tls_config (s : Server) (c : ServerTlsConfig) : build_result :=
     match tls_acceptor c with
     | AccPanic => BuildPanic
-    | AccErr => BuildErr
+    | AccErr _ => BuildErr
     | AccOk a => BuildOk {| sv_tls := Some a; sv_layers := sv_layers s; sv_opts := sv_opts s |}
     end.
   (* timeout, concurrency_limit_per_connection, the window sizes, keep-alives, max_frame_size,
@@ -271,12 +409,19 @@ Section Wiring.
         | x => x
         end
     end.
+  (* specification vocabulary: the configuration of the last tls_config call *)
+  Fixpoint last_tls (ops : list builder_op) : option ServerTlsConfig :=
+    match ops with
+    | [] => None
+    | OpTls c :: r => match last_tls r with Some c' => Some c' | None => Some c end
+    | _ :: r => last_tls r
+    end.
 
   (* the peer of a channel: a plaintext listener, or a TLS listener with some rustls config
      (tonic's own acceptor has [a_alpn = [h2]]; other servers may differ) *)
   Inductive server := SPlain | STls (a : TlsAcceptor).
 
-  (* serve_with_incoming: ServerIoStream::new(incoming, self.tls) *)
+  (* serve_with_incoming / serve: ServerIoStream::new(incoming, self.tls) *)
   Definition server_listener (s : Server) : server :=
     match sv_tls s with Some a => STls a | None => SPlain end.
 
@@ -303,67 +448,116 @@ Section Wiring.
     end.
 
   (* ---------------------------------------------------------------- Connector::call *)
-  (* the [is_https] test and the whole branch are under cfg(feature = "_tls-any") *)
+  (* the [is_https] test (on the URI the connector is called with, [connect_uri]) and the whole
+     branch are under cfg(feature = "_tls-any") *)
   Definition connect_outcome (f : features) (e : Endpoint) (srv : server) : conn :=
-    if f_tls f && is_https (e_scheme e)
+    if f_tls f && is_https (fst (connect_uri e))
     then match e_tls e with
          | Some tls => tls_connect tls srv
          | None => ConnErr HttpsUriWithoutTlsSupport
          end
     else ConnPlain.
 
-  (* an io was handed to hyper: the request is written to it *)
+  (* the io Connector::call hands to hyper, which writes the HTTP/2 preface and the request to
+     it: the raw io, the TLS session, or - after an error - none *)
+  Inductive chan := ChPlain | ChTls.
+  Definition chan_eqb (a b : chan) : bool :=
+    match a, b with ChPlain, ChPlain | ChTls, ChTls => true | _, _ => false end.
+  Definition request_channel (c : conn) : option chan :=
+    match c with
+    | ConnErr _ => None
+    | ConnPlain => Some ChPlain
+    | ConnTls _ => Some ChTls
+    end.
   Definition call_transmitted (c : conn) : bool :=
-    match c with ConnErr _ => false | _ => true end.
+    match request_channel c with Some _ => true | None => false end.
 
   Definition endpoint_identity (e : Endpoint) : option cert :=
     match e_tls e with Some t => tc_identity t | None => None end.
 
   (* ---------------------------------------------------------------- server side *)
-  (* What the listener's ServerIoStream yields for the connection, independently of what the
-     client does after ITS handshake returned (the H2NotNegotiated decision comes later):
-     a plaintext listener yields every connection; a TLS listener yields the connection iff
-     the rustls handshake completed on both sides (TlsErr is logged and dropped), which needs
-     the client to have started one *)
+  (* the accept task of io_stream.rs ([tls.accept(stream).await?]) for the connection of this
+     client: the rustls handshake completes on both sides or not at all, which needs the client
+     to have started one *)
+  Definition tls_accept_task (f : features) (e : Endpoint) (a : TlsAcceptor) : hs_server :=
+    if f_tls f && is_https (fst (connect_uri e))
+    then match e_tls e with
+         | Some t => match rustls_connect t (STls a) with
+                     | HsOk _ => rustls_accept a (tc_identity t)
+                     | HsErr _ => SrvReject
+                     end
+         | None => SrvReject                      (* nothing was sent *)
+         end
+    else SrvReject.                               (* plaintext bytes into a TLS acceptor *)
   Definition server_handshake (f : features) (e : Endpoint) (srv : server) : hs_server :=
     match srv with
     | SPlain => SrvAccept None
-    | STls a =>
-        if f_tls f && is_https (e_scheme e)
-        then match e_tls e with
-             | Some t => match rustls_connect t srv with
-                         | HsOk _ => rustls_accept a (tc_identity t)
-                         | HsErr _ => SrvReject
-                         end
-             | None => SrvReject                      (* nothing was sent *)
-             end
-        else SrvReject                                (* plaintext bytes into a TLS acceptor *)
+    | STls a => tls_accept_task f e a
     end.
 
-  (* a handler runs iff the listener yielded the connection AND a request was transmitted on
-     it in the protocol the listener speaks *)
+  (* ServerIoStream::poll_next for this connection, i.e. what serve_internal gets to serve:
+     without an acceptor every incoming io as it is (poll_next_without_tls, ServerIo::Io); with
+     one, the TLS stream if the accept task succeeded (SelectOutput::Io, ServerIo::TlsIo) and
+     nothing if it failed (SelectOutput::TlsErr is logged and the stream goes on) *)
+  Inductive server_io := IoPlain | IoTls (peer_certificates : option cert).
+  Definition listener_yields (f : features) (e : Endpoint) (srv : server) : option server_io :=
+    match srv with
+    | SPlain => Some IoPlain
+    | STls a => match tls_accept_task f e a with
+                | SrvAccept pc => Some (IoTls pc)
+                | SrvReject => None
+                end
+    end.
+  Definition io_chan (io : server_io) : chan :=
+    match io with IoPlain => ChPlain | IoTls _ => ChTls end.
+  (* serve_connection: hyper finds a request on the io iff the peer wrote one to its end of the
+     same channel (TLS records are no HTTP/2 preface and vice versa) *)
+  Definition io_delivers (io : server_io) (sent : option chan) : bool :=
+    match sent with
+    | Some k => chan_eqb (io_chan io) k
+    | None => false
+    end.
+  (* the connection a handler runs on, if one does *)
+  Definition handler_io (f : features) (e : Endpoint) (srv : server) : option server_io :=
+    match listener_yields f e srv with
+    | Some io => if io_delivers io (request_channel (connect_outcome f e srv)) then Some io else None
+    | None => None
+    end.
   Definition request_reaches_handler (f : features) (e : Endpoint) (srv : server) : bool :=
-    match server_handshake f e srv with
-    | SrvReject => false
-    | SrvAccept _ =>
-        match srv, connect_outcome f e srv with
-        | SPlain, ConnPlain => true
-        | STls _, ConnTls _ => true
-        | _, _ => false
-        end
+    match handler_io f e srv with Some _ => true | None => false end.
+
+  (* conn.rs: TlsConnectInfo { certs: session.peer_certificates() } of that connection *)
+  Definition peer_certs_exposed (f : features) (e : Endpoint) (srv : server) : option cert :=
+    match handler_io f e srv with
+    | Some (IoTls pc) => pc
+    | _ => None
     end.
 
-  (* conn.rs: TlsConnectInfo { certs: session.peer_certificates() }, seen by a handler that runs *)
-  Definition peer_certs_exposed (f : features) (e : Endpoint) (srv : server) : option cert :=
-    if request_reaches_handler f e srv
-    then match server_handshake f e srv with SrvAccept pc => pc | SrvReject => None end
-    else None.
-
-  (* request.rs: Request::peer_certs looks the extension up by the type
-     TlsConnectInfo<TcpConnectInfo>; over any other IO type it answers None although
-     TlsConnectInfo<T> is in the extensions *)
-  Definition request_peer_certs (io_is_tcp : bool) (tls_info_certs : option cert) : option cert :=
-    if io_is_tcp then tls_info_certs else None.
+  (* ---------------------------------------------------------------- request extensions *)
+  (* T::ConnectInfo of the IO type the server was given *)
+  Inductive info_ty := InfoTcp | InfoOther.
+  Definition info_ty_eqb (a b : info_ty) : bool :=
+    match a, b with InfoTcp, InfoTcp | InfoOther, InfoOther => true | _, _ => false end.
+  (* the two kinds of extension values tonic inserts: T::ConnectInfo and TlsConnectInfo<T::ConnectInfo> *)
+  Inductive ext := ExtConn (t : info_ty) | ExtTls (t : info_ty) (certs : option cert).
+  (* service/io.rs: ServerIo::connect_info and ConnectInfo::call *)
+  Definition connect_info_exts (t : info_ty) (io : server_io) : list ext :=
+    match io with
+    | IoPlain => [ExtConn t]
+    | IoTls pc => [ExtConn t; ExtTls t pc]
+    end.
+  (* extensions().get::<TlsConnectInfo<T>>().map(|i| i.peer_certs()) *)
+  Definition ext_tls_certs (t : info_ty) (l : list ext) : option (option cert) :=
+    match find (fun x => match x with ExtTls t' _ => info_ty_eqb t t' | _ => false end) l with
+    | Some (ExtTls _ pc) => Some pc
+    | _ => None
+    end.
+  (* request.rs Request::peer_certs: get::<TlsConnectInfo<TcpConnectInfo>>().and_then(peer_certs) *)
+  Definition request_peer_certs (l : list ext) : option cert :=
+    match ext_tls_certs InfoTcp l with Some pc => pc | None => None end.
+  (* what the handler finds in its request *)
+  Definition handler_exts (t : info_ty) (f : features) (e : Endpoint) (srv : server) : list ext :=
+    match handler_io f e srv with Some io => connect_info_exts t io | None => [] end.
 
   (* ---------------------------------------------------------------- observable of one call *)
   (* 2 = the peer aborted the handshake before the client's side completed (connect fails),
@@ -448,14 +642,14 @@ Section Wiring.
         chain_ok (tc_roots t) (a_cert a) = true /\ name_ok (tc_domain t) (a_cert a) = true.
   (* a completed server handshake means: without a verifier no certificate is requested or
      seen; with WebPkiClientVerifier the client presented a certificate that verifies against
-     the root and that is what [peer_certificates] returns, or it presented none and
+     one of the roots and that is what [peer_certificates] returns, or it presented none and
      [allow_unauthenticated] was set *)
   Definition accept_sound : Prop :=
     forall a ident pc, rustls_accept a ident = SrvAccept pc ->
       match a_verifier a with
       | NoClientAuth => pc = None
-      | WebPki root allow =>
-          (exists c, ident = Some c /\ pc = Some c /\ client_cert_ok root c = true) \/
+      | WebPki roots allow =>
+          (exists c r, ident = Some c /\ pc = Some c /\ In r roots /\ client_cert_ok r c = true) \/
           (allow = true /\ ident = None /\ pc = None)
       end.
 
@@ -464,16 +658,83 @@ Section Wiring.
     c_trust_anchors c
     ++ (if f_native_roots f && c_with_native_roots c then native_certs else [])
     ++ (if f_webpki_roots f && c_with_webpki_roots c then webpki_roots else [])
-    ++ c_certs c.
+    ++ flat_map pem_certs (c_certs c).
   Definition effective_domain (c : ClientTlsConfig) (uri_host : option dname) : option dname :=
     match c_domain c with Some d => Some d | None => uri_host end.
 
   (* first bytes the client puts on the raw pipe: 0 nothing, 1 TLS records, 2 plaintext HTTP/2 *)
   Definition wire_of (f : features) (e : Endpoint) : N :=
-    if f_tls f && is_https (e_scheme e)
+    if f_tls f && is_https (fst (connect_uri e))
     then match e_tls e with Some _ => 1 | None => 0 end
     else 2.
 End Wiring.
+
+
+(* ------------------------------------------------------------------ the listener over time *)
+(* ---------------------------------------------------------------- io_stream.rs as a state machine *)
+Section IoStream.
+  Context {io : Type}.
+  (* the outcome of the accept task of the k-th incoming connection ([tls.accept(stream).await]):
+     the TLS stream, or an error *)
+  Variable accept : nat -> option io.
+
+  (* what can happen between two returns of poll_next: the incoming stream yields connection k,
+     yields an error (fatal or not: handle_tcp_accept_error), ends; the accept task of
+     connection k finishes (JoinSet::join_next) *)
+  Inductive sio_event := EvIncoming (k : nat) | EvIncomingErr (fatal : bool) | EvIncomingEnd | EvTaskDone (k : nat).
+  Inductive sio_out := OutIo (k : nat) (x : io) | OutErr.
+
+  Fixpoint remove_task (k : nat) (l : list nat) : list nat :=
+    match l with
+    | [] => []
+    | x :: r => if Nat.eqb k x then r else x :: remove_task k r
+    end.
+
+  (* one event with a TLS acceptor: [tasks] = the JoinSet.  Result: the JoinSet afterwards, what
+     poll_next hands to serve_internal, and whether the stream has ended *)
+  Definition sio_step (tasks : list nat) (ev : sio_event) : list nat * list sio_out * bool :=
+    match ev with
+    | EvIncoming k => (k :: tasks, [], false)                    (* SelectOutput::Incoming: spawn, Pending *)
+    | EvTaskDone k =>
+        if existsb (Nat.eqb k) tasks                             (* join_next returns members of the set only *)
+        then (remove_task k tasks,
+              match accept k with
+              | Some x => [OutIo k x]                             (* SelectOutput::Io *)
+              | None => []                                        (* SelectOutput::TlsErr: logged, Pending *)
+              end, false)
+        else (tasks, [], false)
+    | EvIncomingErr fatal => (tasks, if fatal then [OutErr] else [], false)   (* SelectOutput::TcpErr *)
+    | EvIncomingEnd => (tasks, [], true)                          (* SelectOutput::Done: Ready(None) *)
+    end.
+  Fixpoint sio_run (tasks : list nat) (evs : list sio_event) : list sio_out :=
+    match evs with
+    | [] => []
+    | ev :: r =>
+        match sio_step tasks ev with
+        | (t, o, true) => o
+        | (t, o, false) => o ++ sio_run t r
+        end
+    end.
+
+  (* without an acceptor (poll_next_without_tls): every incoming connection is handed on as it is *)
+  Variable plain : nat -> io.
+  Fixpoint sio_run_plain (evs : list sio_event) : list sio_out :=
+    match evs with
+    | [] => []
+    | EvIncoming k :: r => OutIo k (plain k) :: sio_run_plain r
+    | EvIncomingErr fatal :: r => (if fatal then [OutErr] else []) ++ sio_run_plain r
+    | EvIncomingEnd :: _ => []
+    | EvTaskDone _ :: r => sio_run_plain r                      (* there is no JoinSet *)
+    end.
+
+  (* specification vocabulary *)
+  Definition arrivals (evs : list sio_event) : list nat :=
+    flat_map (fun e => match e with EvIncoming k => [k] | _ => [] end) evs.
+  Definition yielded (o : list sio_out) : list nat :=
+    flat_map (fun x => match x with OutIo k _ => [k] | OutErr => [] end) o.
+  Definition no_end (evs : list sio_event) : Prop := ~ In EvIncomingEnd evs.
+
+End IoStream.
 
 
 (* ------------------------------------------------------------------ reference handshake *)
@@ -518,14 +779,24 @@ Section Reference.
     end.
 
   (* a certificate is requested only when a verifier is installed; a presented certificate
-     must verify even when unauthenticated clients are allowed *)
+     must verify (against any one of the roots) even when unauthenticated clients are allowed *)
   Definition ref_accept (a : @TlsAcceptor cert ca) (client_identity : option cert) : @hs_server cert :=
     match a_verifier a with
     | NoClientAuth => SrvAccept None
-    | WebPki root allow =>
+    | WebPki roots allow =>
         match client_identity with
-        | Some c => if client_cert_ok root c then SrvAccept (Some c) else SrvReject
+        | Some c => if existsb (fun r => client_cert_ok r c) roots then SrvAccept (Some c) else SrvReject
         | None => if allow then SrvAccept None else SrvReject
+        end
+    end.
+  (* specification vocabulary: what the reference server side admits *)
+  Definition ref_admits (a : @TlsAcceptor cert ca) (ident : option cert) : bool :=
+    match a_verifier a with
+    | NoClientAuth => true
+    | WebPki roots allow =>
+        match ident with
+        | Some c => existsb (fun r => client_cert_ok r c) roots
+        | None => allow
         end
     end.
   Definition ref_resume (l : @listener cert ca) (t : @ticket cert) : option (option cert) :=
@@ -536,9 +807,9 @@ End Reference.
 Inductive caid :=
 | CA1          (* issues the server certificates *)
 | CA2          (* the client CA *)
-| CAPublic     (* stands for the webpki-roots set: issues nothing in the test PKI *)
-| CAGarbage.   (* a "certificate" whose PEM contains no certificate at all *)
-Inductive dn := DExample | DOther | DBad.    (* "example.test", "other.test", not a DNS name *)
+| CAPublic.    (* stands for the webpki-roots set: issues nothing in the test PKI *)
+Inductive dn := DExample | DOther | DBad.    (* "example.test", "other.test", not a DNS name
+                                                (over TCP: "localhost", "127.0.0.1") *)
 Inductive certid :=
 | SrvExample      (* CA1, SAN example.test, serverAuth *)
 | SrvOther        (* CA1, SAN other.test,   serverAuth *)
@@ -549,7 +820,7 @@ Inductive certid :=
 
 Definition ca_eqb (a b : caid) : bool :=
   match a, b with
-  | CA1, CA1 | CA2, CA2 | CAPublic, CAPublic | CAGarbage, CAGarbage => true
+  | CA1, CA1 | CA2, CA2 | CAPublic, CAPublic => true
   | _, _ => false
   end.
 Definition dn_eqb (a b : dn) : bool :=
@@ -562,8 +833,10 @@ Definition san (c : certid) : option dn :=
   match c with SrvExample | SrvFakePublic => Some DExample | SrvOther => Some DOther | _ => None end.
 Definition is_client_cert (c : certid) : bool :=
   match c with CliCA1 | CliCA2 => true | _ => false end.
+Definition cert_code (c : certid) : N :=
+  match c with SrvExample => 11 | SrvOther => 12 | SrvFakePublic => 13 | CliCA2 => 1 | CliCA1 => 2 end.
 
-(* the certificate facts that instantiate the three predicates *)
+(* the certificate facts that instantiate the predicates *)
 Definition t_anchor_named (roots : list caid) (c : certid) : bool := existsb (ca_eqb (issuer c)) roots.
 Definition t_chain_ok (roots : list caid) (c : certid) : bool := genuine c && t_anchor_named roots c.
 Definition t_name_ok (d : dn) (c : certid) : bool :=
@@ -571,7 +844,7 @@ Definition t_name_ok (d : dn) (c : certid) : bool :=
 Definition t_client_cert_ok (root : caid) (c : certid) : bool :=
   is_client_cert c && ca_eqb (issuer c) root.
 Definition t_valid_name (d : dn) : bool := match d with DBad => false | _ => true end.
-Definition t_ca_usable (c : caid) : bool := match c with CAGarbage => false | _ => true end.
+Definition t_key_matches (k c : certid) : bool := N.eqb (cert_code k) (cert_code c).
 
 (* the harness build: features tls-ring, tls-native-roots, tls-webpki-roots.  The platform's
    root set is whatever SSL_CERT_FILE names (a parameter of every case); the webpki set is the
@@ -583,12 +856,16 @@ Definition t_webpki : list caid := [CAPublic].
 Definition t_connect := ref_connect t_chain_ok t_name_ok t_anchor_named.
 Definition t_accept := ref_accept t_client_cert_ok.
 
+Definition t_tls_config (native : list caid) (e : @Endpoint certid caid dn)
+    (c : @ClientTlsConfig certid caid dn) : cfg_err + @Endpoint certid caid dn :=
+  endpoint_tls_config t_valid_name t_key_matches native t_webpki t_features e c.
 Definition t_endpoint_tls (native : list caid) (s : scheme) (h : option dn)
     (c : option (@ClientTlsConfig certid caid dn)) : cfg_err + @Endpoint certid caid dn :=
   match c with
   | None => inr (endpoint_from_uri s h)
-  | Some c => endpoint_tls_config t_valid_name native t_webpki t_features (endpoint_from_uri s h) c
+  | Some c => t_tls_config native (endpoint_from_uri s h) c
   end.
+Definition t_acceptor (s : @ServerTlsConfig certid caid) := tls_acceptor t_key_matches s.
 
 Definition t_outcome (e : @Endpoint certid caid dn) (srv : @server certid caid) :=
   connect_outcome t_connect t_features e srv.
@@ -598,33 +875,40 @@ Definition t_reaches (e : @Endpoint certid caid dn) (srv : @server certid caid) 
   request_reaches_handler t_connect t_accept t_features e srv.
 Definition t_peer_certs (e : @Endpoint certid caid dn) (srv : @server certid caid) :=
   peer_certs_exposed t_connect t_accept t_features e srv.
+Definition t_exts (t : info_ty) (e : @Endpoint certid caid dn) (srv : @server certid caid) :=
+  handler_exts t_connect t_accept t t_features e srv.
 
 (* ------------------------------------------------------------------ observables *)
-Definition cert_code (c : certid) : N :=
-  match c with SrvExample => 11 | SrvOther => 12 | SrvFakePublic => 13 | CliCA2 => 1 | CliCA1 => 2 end.
 Definition cfg_err_code (e : cfg_err) : N :=
   match e with EInvalidUri => 1 | EInvalidDnsName => 2 | ENativeCertsNotFound => 3
-             | EInvalidTlsConfigForUds => 4 end.
+             | EInvalidTlsConfigForUds => 4 | ECertificateParse => 5 | EPrivateKeyParse => 6
+             | ENoRootAnchors => 7 | ERustlsKey => 8 end.
+Definition ocert (o : option certid) : tr := oopt (fun x => Nn (cert_code x)) o.
 
-(* [class; handler ran; Request::peer_certs seen by the handler; TlsConnectInfo certs in the
-    extensions; wire].  [tls12]: the listener only speaks TLS 1.2, where the server judges the
-    client certificate before the client's handshake completes, so a refusal is seen by the
-    client as an aborted handshake (class 2) instead of a refusal after connecting (class 6) *)
-Definition obs_of_call (tls12 io_is_tcp : bool) (e : @Endpoint certid caid dn)
+(* [class; handler ran; Request::peer_certs seen by the handler; peer_certs of the
+    TlsConnectInfo<T> extension of the io's own connect-info type; is that extension there;
+    wire].  [tls12]: the listener only speaks TLS 1.2, where the server judges the client
+    certificate before the client's handshake completes, so a refusal is seen by the client as
+    an aborted handshake (class 2) instead of a refusal after connecting (class 6) - or instead
+    of H2NotNegotiated (class 5), which the client only decides after its handshake *)
+Definition obs_of_call (tls12 : bool) (t : info_ty) (e : @Endpoint certid caid dn)
     (srv : @server certid caid) : tr :=
   let c := t_outcome e srv in
   let reached := t_reaches e srv in
-  let pc := t_peer_certs e srv in
+  let exts := t_exts t e srv in
   let cl := class_of c reached in
+  let srv_rejects := match t_srv_handshake e srv with SrvReject => true | SrvAccept _ => false end in
   let cl := match c with
-            | ConnTls _ => if tls12 && negb reached then 2 else cl
+            | ConnTls _ | ConnErr H2NotNegotiated => if tls12 && srv_rejects then 2 else cl
             | _ => cl
             end in
   Nd [ Nn cl;
        obool reached;
-       oopt (fun x => Nn (cert_code x)) (request_peer_certs io_is_tcp pc);
-       oopt (fun x => Nn (cert_code x)) pc;
+       ocert (request_peer_certs exts);
+       ocert (match ext_tls_certs t exts with Some pc => pc | None => None end);
+       obool (match ext_tls_certs t exts with Some _ => true | None => false end);
        Nn (wire_of t_features e) ].
+Definition io_ty (io_is_tcp : bool) : info_ty := if io_is_tcp then InfoTcp else InfoOther.
 
 (* a call through [Endpoint::from_shared(uri)] (+ optional [tls_config]) against a server;
    [native] = the certificates SSL_CERT_FILE names *)
@@ -632,53 +916,134 @@ Definition obs_call (native : list caid) (io_is_tcp : bool) (s : scheme) (h : op
     (c : option (@ClientTlsConfig certid caid dn)) (srv : @server certid caid) : tr :=
   match t_endpoint_tls native s h c with
   | inl e => tag 100 [Nn (cfg_err_code e)]
-  | inr ep => obs_of_call false io_is_tcp ep srv
+  | inr ep => obs_of_call false (io_ty io_is_tcp) ep srv
   end.
 
-(* [Endpoint::from_shared(uri)], [.origin(o)] before and/or after [.tls_config(c)] *)
+(* two tls_config calls in a row: the second replaces the first (and an error of either is the
+   error of the chain) *)
+Definition obs_call2 (native : list caid) (s : scheme) (h : option dn)
+    (c1 c2 : @ClientTlsConfig certid caid dn) (srv : @server certid caid) : tr :=
+  match t_tls_config native (endpoint_from_uri s h) c1 with
+  | inl e => tag 100 [Nn (cfg_err_code e)]
+  | inr e1 =>
+      match t_tls_config native e1 c2 with
+      | inl e => tag 100 [Nn (cfg_err_code e)]
+      | inr ep => obs_of_call false InfoTcp ep srv
+      end
+  end.
+
+(* [Endpoint::from_shared("unix:..")] . tls_config *)
+Definition obs_uds_tls_config (native : list caid) (c : @ClientTlsConfig certid caid dn) : tr :=
+  match t_tls_config native endpoint_from_uds c with
+  | inl e => tag 100 [Nn (cfg_err_code e)]
+  | inr _ => tag 0 []
+  end.
+
+Definition scheme_code (s : scheme) : N := match s with Http => 0 | Https => 1 | OtherScheme => 2 end.
+Definition dn_code (d : dn) : N := match d with DExample => 1 | DOther => 2 | DBad => 3 end.
+(* scheme and authority of the request the handler gets (when one runs) *)
+Definition target_tr (reached : bool) (e : @Endpoint certid caid dn) : tr :=
+  if reached
+  then Nd [Nn (scheme_code (fst (request_target e))); oopt (fun d => Nn (dn_code d)) (snd (request_target e))]
+  else Nd [].
+
+(* [Endpoint::from_shared(uri)], [.origin(o)] before and/or after [.tls_config(c)]:
+   the observable of the call and the target of the request *)
 Definition obs_call_origin (native : list caid) (o_before o_after : option (scheme * option dn))
     (s : scheme) (h : option dn) (c : @ClientTlsConfig certid caid dn) (srv : @server certid caid) : tr :=
-  match endpoint_tls_config t_valid_name native t_webpki t_features
-          (apply_origin o_before (endpoint_from_uri s h)) c with
+  match t_tls_config native (apply_origin o_before (endpoint_from_uri s h)) c with
   | inl e => tag 100 [Nn (cfg_err_code e)]
-  | inr ep => obs_of_call false true (apply_origin o_after ep) srv
+  | inr ep =>
+      let ep := apply_origin o_after ep in
+      Nd [obs_of_call false InfoTcp ep srv; target_tr (t_reaches ep srv) ep]
+  end.
+
+(* Channel::new / Channel::connect, the public lower-level constructors: the connector is used
+   as it is given; Endpoint::connector - and with it the endpoint's TLS configuration - is NOT
+   applied, whatever the scheme of the endpoint.  [class; handler ran; wire] *)
+Definition raw_channel_outcome (e : @Endpoint certid caid dn) : @conn := ConnPlain.
+Definition obs_raw_channel (e : cfg_err + @Endpoint certid caid dn) (srv : @server certid caid) : tr :=
+  match e with
+  | inl err => tag 100 [Nn (cfg_err_code err)]
+  | inr ep =>
+      let reached := match srv with SPlain => true | STls _ => false end in
+      Nd [Nn (class_of (raw_channel_outcome ep) reached); obool reached; Nn 2]
+  end.
+
+(* configuration errors without their reason (used where several inputs are faulty at once and
+   the reason reported depends on the order in which tonic looks at them) *)
+Definition coarse (t : tr) : tr :=
+  match t with
+  | Nd [Nn 100; _] => Nd [Nn 100]
+  | Nd [Nn 102; _] => Nd [Nn 102]
+  | t => t
   end.
 
 (* a call through [Endpoint::new(uri)] *)
 Definition obs_call_endpoint_new (native : list caid) (s : scheme) (h : option dn)
     (srv : @server certid caid) : tr :=
-  match endpoint_new t_valid_name native t_webpki t_features s h with
+  match endpoint_new t_valid_name t_key_matches native t_webpki t_features s h with
   | inl e => tag 100 [Nn (cfg_err_code e)]
-  | inr ep => obs_of_call false true ep srv
+  | inr ep => obs_of_call false InfoTcp ep srv
   end.
 
 (* shorthands used by the generated case files *)
 Definition cfg0 : @ClientTlsConfig certid caid dn := client_tls_config_new.
+Definition pem1 {A : Type} (x : A) : list (pem_sec A) := [SecCert x].
+Definition good_id (c : certid) : Identity certid := {| id_cert := [SecCert c]; id_key := Some c |}.
+Definition mk_id (chain : list (pem_sec certid)) (key : option certid) : Identity certid :=
+  {| id_cert := chain; id_key := key |}.
+Definition mk_server_cfg_pem (id : option (Identity certid)) (client_ca : option (list (pem_sec caid)))
+    (optional : bool) : @ServerTlsConfig certid caid :=
+  {| s_identity := id; s_client_ca_root := client_ca; s_client_auth_optional := optional |}.
+(* a well-formed identity and a client CA blob with one certificate *)
 Definition mk_server_cfg (id : option certid) (client_ca : option caid) (optional : bool)
     : @ServerTlsConfig certid caid :=
-  {| s_identity := id; s_client_ca_root := client_ca; s_client_auth_optional := optional |}.
-(* tonic's own TLS server for a configuration with an identity *)
-Definition mk_srv (id : certid) (client_ca : option caid) (optional : bool) : @server certid caid :=
-  match tls_acceptor t_ca_usable (mk_server_cfg (Some id) client_ca optional) with
+  mk_server_cfg_pem (option_map good_id id) (option_map pem1 client_ca) optional.
+Definition srv_of_cfg (s : @ServerTlsConfig certid caid) : @server certid caid :=
+  match t_acceptor s with
   | AccOk a => STls a
   | _ => SPlain
   end.
+(* tonic's own TLS server for a configuration with an identity *)
+Definition mk_srv (id : certid) (client_ca : option caid) (optional : bool) : @server certid caid :=
+  srv_of_cfg (mk_server_cfg (Some id) client_ca optional).
 
-(* [Server::tls_config(cfg)]: 0 = panicked, 1 = acceptor built, 2 = Err *)
+(* [Server::tls_config(cfg)]: 0 = panicked, 1 = acceptor built, 2 = Err with the reason *)
 Definition obs_acceptor (s : @ServerTlsConfig certid caid) : tr :=
-  match tls_acceptor t_ca_usable s with
+  match t_acceptor s with
   | AccPanic => Nd [Nn 0]
   | AccOk _ => Nd [Nn 1]
-  | AccErr => Nd [Nn 2]
+  | AccErr e => Nd [Nn 2; Nn (cfg_err_code e)]
+  end.
+
+(* a call against tonic's server built from an arbitrary configuration *)
+Definition obs_call_cfg (native : list caid) (s : scheme) (h : option dn)
+    (c : option (@ClientTlsConfig certid caid dn)) (sc : @ServerTlsConfig certid caid) : tr :=
+  match t_acceptor sc with
+  | AccPanic => tag 101 []
+  | AccErr e => tag 102 [Nn (cfg_err_code e)]
+  | AccOk a => obs_call native true s h c (STls a)
   end.
 
 (* a call against the listener of [Server::builder()] after the builder calls [ops] *)
 Definition obs_call_built (native : list caid) (s : scheme) (h : option dn)
     (c : option (@ClientTlsConfig certid caid dn)) (ops : list (@builder_op certid caid)) : tr :=
-  match server_build t_ca_usable server_builder ops with
+  match server_build t_key_matches server_builder ops with
   | BuildPanic => tag 101 []
   | BuildErr => tag 102 []
   | BuildOk sv => obs_call native true s h c (server_listener sv)
+  end.
+
+(* ONE listener, several clients one after the other (each on a connection of its own): what
+   the listener does with one connection does not depend on the others (a failed accept task is
+   logged, the stream goes on) *)
+Definition obs_sequence (native : list caid) (sc : @ServerTlsConfig certid caid)
+    (clients : list (scheme * option (@ClientTlsConfig certid caid dn))) : tr :=
+  match t_acceptor sc with
+  | AccPanic => tag 101 []
+  | AccErr e => tag 102 [Nn (cfg_err_code e)]
+  | AccOk a => olist (fun cl => obs_call native true (fst cl) (Some DExample) (snd cl) (STls a)) clients
   end.
 
 (* servers built from [cfgs] in one process; a resumption-capable client (one shared rustls
@@ -686,10 +1051,10 @@ Definition obs_call_built (native : list caid) (s : scheme) (h : option dn)
    into [cfgs]): per visit [handler ran; peer certificates] *)
 Definition obs_resumption (ident : option certid) (cfgs : list (@ServerTlsConfig certid caid))
     (order : list nat) : tr :=
-  let procs := spawn_servers t_ca_usable cfgs in
+  let procs := spawn_servers t_key_matches cfgs in
   let ls := flat_map (fun k => match nth k procs None with Some l => [l] | None => [] end) order in
   olist (fun r => match r with
-                  | SrvAccept pc => Nd [obool true; oopt (fun x => Nn (cert_code x)) pc]
+                  | SrvAccept pc => Nd [obool true; ocert pc]
                   | SrvReject => Nd [obool false; Nd []]
                   end)
         (visits t_accept ref_resume ident None ls).
@@ -697,7 +1062,7 @@ Definition obs_resumption (ident : option certid) (cfgs : list (@ServerTlsConfig
 (* a bare rustls client offering [offers] against tonic's acceptor: 0 = aborted,
    1 = completed with the selected protocol *)
 Definition obs_negotiate (offers : list proto) (s : @ServerTlsConfig certid caid) : tr :=
-  match tls_acceptor t_ca_usable s with
+  match t_acceptor s with
   | AccOk a =>
       match ref_negotiate offers (a_alpn a) with
       | NegAbort => Nd [Nn 0]
@@ -738,8 +1103,8 @@ Definition all_cells : list cell :=
 Definition cell_client_cfg (x : cell) : @ClientTlsConfig certid caid dn :=
   let c := client_tls_config_new in
   let c := match x_roots x with
-           | RightCA => ca_certificate c CA1
-           | OtherCA => ca_certificate c CA2
+           | RightCA => ca_certificate c (pem1 CA1)
+           | OtherCA => ca_certificate c (pem1 CA2)
            | NoRoots => c
            end in
   let c := match x_dom x with
@@ -749,8 +1114,8 @@ Definition cell_client_cfg (x : cell) : @ClientTlsConfig certid caid dn :=
            end in
   let c := match x_ident x with
            | IdNone => c
-           | IdValid => identity c CliCA2
-           | IdOtherCA => identity c CliCA1
+           | IdValid => identity c (good_id CliCA2)
+           | IdOtherCA => identity c (good_id CliCA1)
            end in
   assume_http2 c (x_assume x).
 
@@ -758,15 +1123,16 @@ Definition cell_host (x : cell) : dn :=
   match x_host x with HostExample => DExample | HostOther => DOther end.
 
 Definition cell_server_cfg (x : cell) : @ServerTlsConfig certid caid :=
-  {| s_identity := Some (match x_scert x with SCertExample => SrvExample | SCertOther => SrvOther end);
-     s_client_ca_root := match x_cauth x with CaNone | CaNoneOptional => None | _ => Some CA2 end;
-     s_client_auth_optional := match x_cauth x with CaNoneOptional | CaOptional => true | _ => false end |}.
+  mk_server_cfg
+    (Some (match x_scert x with SCertExample => SrvExample | SCertOther => SrvOther end))
+    (match x_cauth x with CaNone | CaNoneOptional => None | _ => Some CA2 end)
+    (match x_cauth x with CaNoneOptional | CaOptional => true | _ => false end).
 
 (* ALPN h2 is tonic's own acceptor; the other two are the same rustls configuration with the
    protocol list replaced (tonic cannot be configured to produce them) *)
 Definition cell_server (x : cell) : option (@server certid caid) :=
-  match tls_acceptor t_ca_usable (cell_server_cfg x) with
-  | AccPanic | AccErr => None
+  match t_acceptor (cell_server_cfg x) with
+  | AccPanic | AccErr _ => None
   | AccOk a =>
       Some (STls (match x_alpn x with
                   | AlpnH2 => a
@@ -783,12 +1149,25 @@ Definition cell_endpoint (x : cell) : cfg_err + @Endpoint certid caid dn :=
 
 Definition obs_cell_v (tls12 : bool) (x : cell) : tr :=
   match cell_server x, cell_endpoint x with
-  | Some srv, inr ep => obs_of_call tls12 true ep srv
+  | Some srv, inr ep => obs_of_call tls12 InfoTcp ep srv
   | None, _ => tag 101 []
   | _, inl e => tag 100 [Nn (cfg_err_code e)]
   end.
 
 Definition obs_cell := obs_cell_v false.
+(* the same cell over real TCP (Endpoint::connect against Server::serve): everything but the
+   wire, which cannot be tapped there *)
+Definition obs_cell_tcp (x : cell) : tr :=
+  match obs_cell x with
+  | Nd [a; b; c; d; e; _] => Nd [a; b; c; d; e]
+  | t => t
+  end.
+(* ... through connect_lazy / a balance channel, where a failure has no class: 1 = served *)
+Definition obs_cell_tcp_served (x : cell) : tr :=
+  match obs_cell x with
+  | Nd [Nn a; b; c; d; e; _] => Nd [obool (N.eqb a 0); b; c; d; e]
+  | t => t
+  end.
 (* the same cell with Endpoint::origin called before / after tls_config *)
 Definition obs_cell_origin (o_before o_after : option (scheme * option dn)) (x : cell) : tr :=
   match cell_server x with
@@ -807,7 +1186,7 @@ Definition cell_served (x : cell) : bool :=
   end.
 Definition cell_peer_certs (x : cell) : option certid :=
   match cell_server x, cell_endpoint x with
-  | Some srv, inr ep => t_peer_certs ep srv
+  | Some srv, inr ep => request_peer_certs (t_exts InfoTcp ep srv)
   | _, _ => None
   end.
 Definition cell_plaintext (x : cell) : bool :=
